@@ -272,6 +272,39 @@ def run(ctx: Ctx) -> None:
 def replay(data: dict[str, Any]) -> int:
     inp = data["input"]
     jobs = inp["jobs_pv"]
+    if "job_name" in inp:
+        # the command-line route: one-shot vs -om / -im over the recorded cut
+        import shutil
+        name, cut = inp["job_name"], inp["cut"]
+        stem = name.replace(" ", "_")
+        tmp = tempfile.mkdtemp(prefix="o2p04r_")
+        w = pvlib.Worker(0)
+        try:
+            def run_cli(tag: str, js: list[Any], im: str | None) -> str:
+                d = os.path.join(tmp, tag)
+                os.makedirs(os.path.join(d, "in"))
+                os.makedirs(os.path.join(d, "out"))
+                for n, j in enumerate(js):
+                    with open(os.path.join(d, "in", f"job{n}.json"), "w") as f:
+                        json.dump(j, f)
+                argv = ["-o", os.path.join(d, "out"), "pv2puml", "-om", "-fp", os.path.join(d, "in"), "-jn", name]
+                w.send({"op": "cli", "argv": argv + (["-im", im] if im else []), "timeout": 120})
+                print(tag, w.recv().get("exit"))
+                return os.path.join(d, "out", stem + "_model.json")
+            m1 = run_cli("one", jobs, None)
+            ma = run_cli("a", jobs[:cut], None)
+            mb = run_cli("b", jobs[cut:], ma if os.path.exists(ma) else None)
+            if not (os.path.exists(m1) and os.path.exists(mb)):
+                print("a model file is missing")
+                return 1
+            with open(m1) as f1, open(mb) as f2:
+                one, upd = json.load(f1), json.load(f2)
+            same = canon_file(one) == canon_file(upd) and one.get("job_name") == upd.get("job_name")
+            print("one-shot:", json.dumps(one)[:600], "\nupdated:", json.dumps(upd)[:600])
+            return 0 if same else 1
+        finally:
+            w.close()
+            shutil.rmtree(tmp, ignore_errors=True)
     cuts_list = data.get("chunks_cut_at") or [[max(1, len(jobs) // 2)]]
     tmp = tempfile.mkdtemp(prefix="o2p04r_")
     reqs = [{"op": "learn", "chunks": [jobs], "hash_seed": 0, "timeout": 60}]
